@@ -26,6 +26,7 @@ structure Snap where
   ga : Bool
   cd : Bool
   eof : Bool
+  leak : Int := 0
 deriving Repr, Inhabited
 
 def parseEntry (t : String) : REntry :=
@@ -45,15 +46,19 @@ def kv (fields : List String) (k : String) : String :=
   | some f => (f.drop (k.length + 1)).toString
   | none => ""
 
-def parseSnap (line : String) : Option Snap :=
-  match line.splitOn " " with
-  | [res, rp, _w, cn] =>
+def parseSnap4 (res rp cn : String) : Option Snap :=
     if !rp.startsWith "rpcs=" || !cn.startsWith "conn=" then none else
     let rs := (rp.drop 5).toString
     let rpcs := if rs = "-" then [] else (rs.splitOn ",").map parseEntry
     let cf := ((cn.drop 5).toString).splitOn ","
     some { res := res, rpcs := rpcs, st := cf.headD "-", next := (kv cf "next").toNat?.getD 0,
            prev := (kv cf "prev").toNat?.getD 0, ga := kv cf "ga" = "1", cd := kv cf "cd" = "1", eof := kv cf "eof" = "1" }
+
+def parseSnap (line : String) : Option Snap :=
+  match line.splitOn " " with
+  | [res, rp, _w, cn] => parseSnap4 res rp cn
+  | [res, rp, _w, cn, lk] =>
+    (parseSnap4 res rp cn).map fun sn => { sn with leak := ((lk.drop 5).toString.toInt?).getD 1 }
   | _ => none
 
 def REntry.open (e : REntry) : Bool := e.kind = 'A' || e.kind = 'B'
@@ -165,6 +170,12 @@ def c11Verdict (fs : List String) (m : MonSt) (p c : Snap) : String :=
     if c.st = "C" && c.cd && c.eof then c.rpcs.map fun d =>
       if d.kind = 'W' || d.open then some s!"RPC outlives the closed connection: {d.kind}{d.id}" else none
     else []
-  firstViol ([grow] ++ per ++ legal ++ dl ++ closed)
+  let leak : Option String :=
+    if c.leak ≠ 0 then some s!"{c.leak} goroutine(s) outlive the closed connection" else none
+  let ended : List (Option String) :=
+    match fs with
+    | ["end"] => c.rpcs.map fun d => if d.kind = 'W' || d.open then some s!"RPC not terminated after Close: {d.kind}{d.id}" else none
+    | _ => []
+  firstViol ([grow] ++ per ++ legal ++ dl ++ closed ++ [leak] ++ ended)
 
 end GrpcModel.ClientConnMon
